@@ -147,6 +147,11 @@ impl ProgressStyle {
             "at least 2 progress chars required"
         );
         self.char_width = width(&self.progress_chars);
+        // A width of zero would make `format_bar` divide by zero while drawing
+        assert!(
+            self.char_width > 0,
+            "progress chars must have a non-zero width"
+        );
         self
     }
 
